@@ -26,7 +26,7 @@ claimed={
  "C12":("exploration","source() with decorator layer, decorator counters, Decorate verdict table","E-dyn",
    "consumers below a decorator must hold the nearest decorator's output, the decorator its undecorated (or outer-decorated) input; one decorator per key and scope; decorators run at most once","decorator-mediated cycles excluded statically (DESIGN 10.1)"),
  "C13":("fault_enumeration","error identity / errors.Is / RootCause / errors.As(dig.Error) / IsCycleDetected / PanicError table on faulted and rejection-heavy histories","E-dyn",
-   "every error value returned by Provide/Decorate/Invoke and every escaping panic classified with public predicates only and compared with the failure the harness injected or the rejection cause it constructed","message text never compared; RootCause identity for user errors that wrap a foreign dig error is the known finding F16 (KNOWN_FINDINGS.txt)"),
+   "every error value returned by Provide/Decorate/Invoke and every escaping panic classified with public predicates only and compared with the failure the harness injected or the rejection cause it constructed","message text never compared; RootCause identity / IsCycleDetected for user errors that wrap another container's dig error are the known findings F16 and F25 (KNOWN_FINDINGS.txt)"),
  "C18":("exploration","expected Info entry lists computed from the signature spec, compared through Input/Output String()","E-dyn",
    "Provide/Decorate/Invoke Info structs compared entry by entry with the list derived from the function spec (nested objects flattened, variadic and error dropped, As expanded); untouched on rejection","ID injectivity is checked by the pool engine when built"),
  "C05":("exploration","real cycle search on every small digraph via hook (exhaustive n<=5) + exhaustive/sampled dig programs under the strict/permissive cycle-graph oracle, child process per batch","E-graph + E-dyn",
@@ -69,7 +69,7 @@ m={"version":1,"setup_cmd":"./verif.sh setup",
   {"name":"E-pool","path":"/verif/harness/pool","serves_properties":["C18","C19","C20"],"kind_free_text":"384 generated declared functions (distinct code pointers) forwarding to the monitor body: constructor ids, locations, callback names"},
   {"name":"E-graph","path":"/verif/harness/c05.go","serves_properties":["C05"],"kind_free_text":"hook VerifIsAcyclic: the real cycle search on arbitrary digraphs"}],
  "checks":checks,"not_applicable":na,
- "notes":"Runtime monitoring only. Exit 0 held / 1 VIOLATION / 3 INCONCLUSIVE. KNOWN_FINDINGS.txt lists 23 genuine defects observed by the monitors: 20 repaired by fix: commits in /repo, 3 recorded as known findings (F16 for C13; F22, F23 for C16). DESIGN.md sections 14 and 15 are authoritative for what exists."}
+ "notes":"Runtime monitoring only. Exit 0 held / 1 VIOLATION / 3 INCONCLUSIVE. KNOWN_FINDINGS.txt lists 25 genuine defects observed by the monitors: 21 repaired by fix: commits in /repo, 4 recorded as known findings (F16, F25 for C13; F22, F23 for C16). DESIGN.md sections 14 and 15 are authoritative for what exists."}
 json.dump(m,open('/verif/MANIFEST.json','w'),indent=1)
 import jsonschema
 jsonschema.validate(m,json.load(open('/root/.vp/MANIFEST.schema.json')))
